@@ -191,6 +191,18 @@ pub fn generate(prop: &str, thorough: bool, rng: &mut Rng) -> Case {
                     *hold = false;
                 }
             }
+            // abandoned lookups: the caller drops a lookup future after a few polls and goes on (often with an update of
+            // the same key) while foyer's fetch task is still loading the older version
+            if rng.chance(2, 5) {
+                for _ in 0..1 + rng.below(3) {
+                    let at = rng.below(ops.len() + 1);
+                    let k = match ops.get(at) {
+                        Some(Op::Insert { k, .. }) | Some(Op::Remove { k }) | Some(Op::Get { k, .. }) if rng.chance(3, 4) => *k,
+                        _ => rng.below(keys as usize) as u64,
+                    };
+                    ops.insert(at, Op::Ctl { what: 21, arg: k | ((rng.below(4) as u64) << 16) });
+                }
+            }
             clients.push(ops);
         }
         "C12" => {
